@@ -259,6 +259,24 @@ def sequence_leg(n_variants, kind, chunked):
                             got_inframe = str(new.extract_sequence())
                     except EmptyLocationException:
                         got = ""
+                    # the reference object is left as it was (its blocks are not rewritten by the lift-over) and a second lift-over of the same object
+                    # gives the same answer
+                    if [(b_.start, b_.end) for b_ in obj.chromosome_location.blocks] != [tuple(x) for x in bl]:
+                        return False
+                    if kind == "location":
+                        try:
+                            if str(hap.lift_over_location(obj.chunk_relative_location).extract_sequence()) != got:
+                                return False
+                        except EmptyLocationException:
+                            if got != "":
+                                return False
+                    elif kind in ("feature", "transcript"):
+                        try:
+                            if str(obj.incorporate_variants(hap).get_spliced_sequence()) != got:
+                                return False
+                        except EmptyLocationException:
+                            if got != "":
+                                return False
                     pieces = []
                     for s_, e_ in bl:
                         inner = [(vs - s_, ve - s_, alt) for vs, ve, alt in edits if s_ <= vs and ve <= e_]
@@ -274,6 +292,53 @@ def sequence_leg(n_variants, kind, chunked):
                         if got_inframe != exp[: len(exp) // 3 * 3]:
                             return False
             return True
+
+    return fn
+
+
+def haplotype_mapping_fn():
+    """AnnotationCollection built with TWO variant collections (haplotypes): alternative_haplotype_mapping holds, per haplotype, exactly the genes its
+    variants touch, each lifted onto THAT haplotype only (its spliced sequence = the reference gene with that haplotype's edit applied)"""
+    from inscripta.biocantor.gene.collections import AnnotationCollection
+    from inscripta.biocantor.gene.gene import GeneInterval
+
+    GENES = [(2, 9), (12, 20)]
+
+    def fn(a, ra, ia, b, rb, ib):
+        a, ra, ia, b, rb, ib = concretize(a, ra, ia, b, rb, ib)
+        with untraced():
+            edits = [(a, a + ra, ALTS[ia]), (b, b + rb, ALTS[ib])]
+            for vs, ve, alt in edits:
+                if ve > len(REF):
+                    return True
+                for s_, e_ in GENES:  # a variant cutting a gene boundary is outside the property
+                    if vs < e_ and s_ < ve and not (s_ <= vs and ve <= e_):
+                        return True
+            par = lambda: chrom_parent(REF)  # noqa: E731
+            genes = [GeneInterval([TranscriptInterval([s_], [e_], PLUS if i == 0 else MINUS, guid=90 + i, parent_or_seq_chunk_parent=par())], guid=95 + i,
+                                  parent_or_seq_chunk_parent=par()) for i, (s_, e_) in enumerate(GENES)]
+            haps = [VariantIntervalCollection([VariantInterval(vs, ve, alt, "SNV" if len(alt) == ve - vs else "indel", guid=70 + i, parent_or_seq_chunk_parent=par())],
+                                              guid=80 + i, parent_or_seq_chunk_parent=par()) for i, (vs, ve, alt) in enumerate(edits)]
+            coll = AnnotationCollection(genes=genes, variant_collections=haps, sequence_name="chr1", parent_or_seq_chunk_parent=par())
+            mapping = coll.alternative_haplotype_mapping or {}
+            comp = {"A": "T", "C": "G", "G": "C", "T": "A"}
+            for i, (vs, ve, alt) in enumerate(edits):
+                touched = [k for k, (s_, e_) in enumerate(GENES) if s_ <= vs and ve <= e_]
+                got = mapping.get(80 + i, [])
+                if len(got) != len(touched):
+                    return False
+                for g, k in zip(got, touched):
+                    s_, e_ = GENES[k]
+                    exp = _apply(REF[s_:e_], [(vs - s_, ve - s_, alt)])
+                    if k == 1:
+                        exp = "".join(comp[c] for c in reversed(exp))
+                    try:
+                        seq = str(g.transcripts[0].get_spliced_sequence())
+                    except EmptyLocationException:
+                        seq = ""
+                    if seq != exp:
+                        return False
+            return set(mapping) <= {80, 81}
 
     return fn
 
@@ -342,6 +407,13 @@ def obligations(tier):
                    desc="a collection of three variants given in any order is refused exactly when some pair overlaps; accepted collections hold them sorted",
                    bounds="unbounded symbolic coordinates, 3 variants, every input order",
                    examples=[dict(v1s=10, v1l=3, v2s=12, v2l=1, v3s=20, v3l=1), dict(v1s=10, v1l=3, v2s=20, v2l=1, v3s=14, v3l=1)]))
+    out.append(Obl("haplotype_mapping_two_collections", haplotype_mapping_fn(), dict(a=int, ra=int, ia=int, b=int, rb=int, ib=int),
+                   lambda a, ra, ia, b, rb, ib: 0 <= a and a <= 21 and 1 <= ra and ra <= 2 and 0 <= ia and ia <= 3 and 0 <= b and b <= 21 and 1 <= rb and rb <= 2
+                   and 0 <= ib and ib <= 3 and ((a % 3 == 0 and b % 2 == 1 and ra == 1 and rb == 1) or not quick), budget=600, cost=60,
+                   desc="a collection built with two variant collections maps each haplotype to exactly the genes its variant lies in, each lifted onto that haplotype "
+                        "alone (spliced sequence = reference gene with that one edit)", bounds="24-nt reference, two single-exon genes (+/-), one variant per haplotype at "
+                        "every offset%s, spans 1..2, alt lengths 0..3 (realised)" % (" (a third / half of the offsets, span 1 in the quick tier)" if quick else ""),
+                   examples=[dict(a=3, ra=1, ia=2, b=13, rb=2, ib=0), dict(a=3, ra=1, ia=2, b=5, rb=1, ib=1)]))
     for nv in (1, 2):
         for kind in ("location", "feature", "transcript", "cds", "coding_tx"):
             for chunked in ((False,) if quick and kind != "location" else (False, True)):
